@@ -512,8 +512,13 @@ fn main() {
             // the child died while working on case i: crash (stack overflow / abort)
             let (stream, src) = gen_case(opts.seed, i, &corpus, &regr);
             ev.hit("robust:violation:crash");
-            let mut pred = |s: &str| matches!(probe(s, Duration::from_secs(10)), Probe::Crash(_));
-            let small = shrink(&src, &mut pred, 60);
+            let crashes = ev.counters.get("robust:violation:crash").copied().unwrap_or(0);
+            let small = if crashes > 1 {
+                src.clone()
+            } else {
+                let mut pred = |s: &str| matches!(probe(s, Duration::from_secs(5)), Probe::Crash(_));
+                shrink(&src, &mut pred, 40)
+            };
             let nest = small.chars().filter(|c| "[{(".contains(*c)).count();
             ev.violation(
                 "robust kind=crash",
@@ -522,6 +527,12 @@ fn main() {
                 true,
             );
             next = i + 1;
+            if crashes >= 20 {
+                // the property is plainly violated; restarting a child per crashing case would take
+                // the rest of the time budget
+                ev.hit("robust:search-aborted-after-20-crashes");
+                break;
+            }
         } else if next < total {
             // child ended between cases without DONE: restart where we are
             restarts += 1;
